@@ -7,32 +7,32 @@ D = os.path.dirname(os.path.dirname(os.path.abspath(__file__)))
 CHECKS = {
  "C05": ("differential runtime monitor: gokrb5 vs independent RFC reference (both directions), enumerated inputs",
          "exploration",
-         "Every (etype, plaintext length 0..130, usage, key) case of the enumerated grid is encrypted by gokrb5 and decrypted by an independent RFC 3961/3962/8009/4757 implementation and vice versa; ciphertext length formula and confounder freshness are asserted on every case. Held means: no disagreement on the enumerated grid, not a proof for all keys/contents.",
-         "Trusts ref/kcrypto (written from the RFC text, self-tested against the RFC vectors at every run; cross-checked against the JDK's sun.security.krb5 implementation by setup when a JDK is present).",
+         "Every (etype, plaintext length 0..130, usage, key) case of the enumerated grid (thorough: 0..300 and the neighbours of 512..65536) is encrypted by gokrb5 and decrypted by an independent RFC 3961/3962/8009/4757 implementation and vice versa; ciphertext length formula and confounder freshness are asserted on every case; one ciphertext buffer is presented three times (right usage, another usage, right usage); a key usage sweep covers every usage number 1..4095 (thorough: 1..65535 plus 100 000 seeded 32-bit numbers) per etype. Held means: no disagreement on the enumerated grid, not a proof for all keys/contents.",
+         "Trusts ref/kcrypto (written from the RFC text, self-tested against the RFC vectors at every run; cross-checked against the JDK's sun.security.krb5 implementation by setup when a JDK is present). A failing random source cannot be injected: with go >= 1.24 crypto/rand.Read never returns an error.",
          "5.C05"),
  "C06": ("runtime monitor by construction: non-identity transformations of reference ciphertexts must all be rejected",
          "exploration",
-         "Every base ciphertext (etype x plaintext length 0..64 x keys) is produced by the independent reference; every single-bit flip and every truncation (exhaustive), appends, block swaps, every other usage and unrelated/mis-sized keys are presented to DecryptMessage, which must return an error and no plaintext; the untouched base must decrypt.",
+         "Every base ciphertext (etype x plaintext length 0..64 x keys, base usages cycling through the usage set; plus plaintexts of 4080-9000 bytes, thorough up to 66000, with seeded samples) is produced by the independent reference; every single-bit flip and every truncation (exhaustive), appends, block swaps, every other usage and unrelated/mis-sized keys are presented at all three API levels (crypto.DecryptMessage, EType.DecryptMessage, crypto.DecryptEncPart), each of which must return an error and no plaintext; the untouched base must decrypt.",
          "Trusts ref/kcrypto to produce authentic ciphertexts (C05 cross-checks that in both directions). A success also accepted by the reference would be reported inconclusive (MAC collision).",
          "5.C06"),
  "C07": ("differential runtime monitor: checksum values vs independent RFC reference; negative verification by construction",
          "exploration",
-         "GetChecksumHash equals the reference for the enumerated grid (type x data length 0..200 x usage set x keys); VerifyChecksum is true for exactly that value and false for every truncation, single-bit flip, extension, other data/key/usage on every 8th case; GetChksumEtype is compared with the IANA registry for ids -200..200.",
+         "GetChecksumHash equals the reference for the enumerated grid (type x data length 0..200 x usage set x keys); VerifyChecksum is true for exactly that value and false for every truncation, single-bit flip, extension, other data/key/usage on every 8th case; a key usage sweep (every usage 0..4095, thorough 0..65535 plus 200 000 seeded 32-bit numbers) per type compares value and verification; keys of every wrong length 0..40 must never verify (nil, empty, zero, right-for-another-key checksums); GetChksumEtype is compared with the IANA registry for ids -200..200.",
          "Trusts ref/kcrypto checksums (RFC vectors self-test at every run).",
          "5.C07"),
  "C08": ("differential runtime monitor: key derivation vs independent RFC reference; PA-data precedence oracle; generated-key usability",
          "exploration",
-         "string-to-key over password classes (ASCII..supplementary plane) x salts x iteration counts, n-fold for every input length 1..64 x 5 output sizes, DK/DR/KDF-HMAC-SHA2, des3 random-to-key incl. all weak/semi-weak groups, every permutation of every subset of the three PA-data hints, and 200 generated keys per etype are compared with / used through the independent reference.",
+         "string-to-key over password classes (ASCII..supplementary plane) x salts x iteration counts, n-fold for every input length 1..64 x 5 output sizes, DK/DR/KDF-HMAC-SHA2, des3 random-to-key incl. all weak/semi-weak groups, every permutation of every subset of the three PA-data hints (incl. an overridden hint that names another etype), client logins against a simulated KDC that sends both hints in either order with non-default salt and iteration count (also with a client that pre-authenticates before being asked), and 200 generated keys per etype from each generator (GenerateEncryptionKey, GenerateSeqNumberAndSubKey, the kpasswd request subkey) are compared with / used through the independent reference.",
          "Trusts ref/kcrypto (RFC 3961 A.1/A.3/A.4, RFC 3962 B, RFC 8009 A vectors). Iteration count 0 (2^32 iterations) and des3 with empty password+salt are not exercised.",
          "5.C08"),
  "C01": ("differential runtime monitor under a virtual clock: VerifyAPREQ vs reference acceptor (RFC 4120 3.2.3) on reference-minted requests",
          "exploration",
-         "AP-REQs are minted by an independent encoder/crypto for each of the six etypes under 72 service configurations; the base request, every single defect of a 60-entry catalogue (rejecting / neutral / not-judged) and seeded (quick) or all (thorough) ordered pairs are presented to service.VerifyAPREQ inside a testing/synctest bubble, so the four time bounds are decided to the nanosecond. Accept/reject and the reported identity (user name, realm, cname incl. type, expiry) must equal the reference acceptor's verdict computed from the same bytes, settings and virtual time.",
+         "AP-REQs are minted by an independent encoder/crypto for each of the six etypes under 72 service configurations; the base request, every single defect of a 67-entry catalogue (rejecting / neutral / not-judged; incl. names cut into components differently and an unsealed EncTicketPart appended to the ticket on the wire) and seeded (quick) or all (thorough) ordered pairs are presented to service.VerifyAPREQ inside a testing/synctest bubble, so the four time bounds are decided to the nanosecond. Accept/reject and the reported identity (user name, realm, cname incl. type, expiry) must equal the reference acceptor's verdict computed from the same bytes, settings and virtual time.",
          "Trusts ref/accept, ref/kmsg, ref/kcrypto, ref/pac (self-tested: RFC vectors; AD-issued sample PAC verifies under its real key). Error codes are observed, not judged. Not judged: empty name lists, ticket with caddr while no client address is configured, sname krbtgt.",
          "5.C01"),
  "C02": ("exhaustive cooperative scheduling over yield hooks + race-detector stress + porcupine linearizability of recorded histories under a virtual clock",
          "exploration",
-         "Three monitors over the real replay cache: (1) every interleaving at yield-point granularity of eleven 2-3 goroutine scenarios (identical and neighbouring authenticators, two services, clean-up), enumerated depth-first by a cooperative scheduler and replayable from the choice list; (2) free-running stress built with -race: 2-8 goroutines released by a barrier present the same fresh authenticator and neighbours while clean-up runs, random Gosched at the hooks, distinct interleaving signatures counted; (3) bounded-exhaustive and long random sequential histories of presentations, clock advances and clean-ups under testing/synctest, through Cache.IsReplay and through service.VerifyAPREQ with reference-minted AP-REQs. Every history is checked for linearizability against a test-and-set model (porcupine) and for at-most-once / no-false-replay.",
+         "Three monitors over the real replay cache: (1) every interleaving at yield-point granularity of eleven 2-3 goroutine scenarios (identical and neighbouring authenticators, two services, clean-up), enumerated depth-first by a cooperative scheduler and replayable from the choice list; (2) free-running stress built with -race: 2-8 goroutines released by a barrier present the same fresh authenticator and neighbours while clean-up runs, random Gosched at the hooks, distinct interleaving signatures counted; (3) bounded-exhaustive and long random sequential histories of presentations, clock advances and clean-ups under testing/synctest, through Cache.IsReplay and through service.VerifyAPREQ with reference-minted AP-REQs (also presented after they left the skew window, with sub-second clock advances, and with the same instant carried in different time zones). Every history is checked for linearizability against a test-and-set model (porcupine) and for at-most-once / no-false-replay.",
          "Exhaustive only at yield-point granularity for the listed scenarios; the stress monitor samples the Go scheduler on this machine. One skew per process is assumed. Race detector reports with a gokrb5 frame are violations.",
          "5.C02"),
  "C14": ("differential runtime monitor: keytab parser/serialiser/lookup vs independent MIT-format reader, writer and lookup filter",
@@ -52,8 +52,8 @@ CHECKS = {
          "5.C17"),
  "C19": ("differential runtime monitor: PAC processing vs independent MS-PAC 2.8 verifier; exhaustive bit flips and buffer surgery judged by the reference; known-contents attribute comparison",
          "exploration",
-         "The AD-issued sample PAC is re-signed by the reference under every signature type with seeded keys; every single-bit flip (exhaustive for selected variants in quick, all in thorough), truncations, removal/duplication/every permutation of buffers (re-signed), RODC identifier, wrong keys, keys of other etypes and changed declared types are presented to PACType.ProcessPACInfoBuffers; Ticket.GetPACType and service.VerifyAPREQ are driven with reference-minted tickets around the PAC. Accept/reject must equal the reference verdict on the same bytes and accepted PACs must expose the sample's known attributes.",
-         "Trusts ref/pac (verifies the AD-issued sample under its real key at every run). Attribute faithfulness is against known contents of one sample, not an independent NDR decoder. Duplicated signature buffers judged for soundness only.",
+         "The AD-issued sample PAC is re-signed by the reference under every signature type with seeded keys; every single-bit flip (exhaustive for selected variants in quick, all in thorough), truncations, removal/duplication/every permutation of buffers (re-signed), RODC identifier, wrong keys, keys of other etypes and changed declared types are presented to PACType.ProcessPACInfoBuffers; Ticket.GetPACType and service.VerifyAPREQ are driven with reference-minted tickets around the PAC. Accept/reject must equal the reference verdict on the same bytes (incl. PACs that cannot be parsed, through the ticket path) and accepted PACs must expose the encoded attributes: the sample's known values, logon times and ids patched at their fixed offsets (self-checked) and re-signed, and - as a set - the group SIDs of the repository's trusted-domain logon-info vector with group and resource-group RIDs patched in place.",
+         "Trusts ref/pac (verifies the AD-issued sample under its real key at every run). Attribute faithfulness is against known contents and in-place patches of two vectors, not an independent NDR decoder. Duplicated signature buffers judged for soundness only.",
          "5.C19"),
  "C16": ("differential runtime monitor: krb5.conf loader, resolver and KDC selection vs independent model/renderer/reference parser; exhaustive resolver space",
          "exploration",
@@ -62,7 +62,7 @@ CHECKS = {
          "5.C16"),
  "C03": ("runtime monitor at the HTTP boundary under a virtual clock: handler / verification APIs vs lenient AP-REQ extractor + reference acceptor + session model",
          "exploration",
-         "spnego.SPNEGOKRB5Authenticate is driven through httptest with ~56 000 Authorization header values per quick run (absent/other schemes/garbage, every framing of valid and defective reference-minted AP-REQs incl. AP-REP and KRB-ERROR mech tokens, empty and foreign mech lists, every prefix and per-byte substitutions of valid tokens, request sequences with and without working/failing session managers); the five token-verification APIs receive the same tokens directly. Soundness: the inner handler ran or an API reported success only if some AP-REQ found at any offset of the decoded header is accepted by the reference acceptor, and the context identity equals the ticket's sealed identity; refusals must be 401 + WWW-Authenticate: Negotiate (5xx only when the harness session store failed). Completeness is demanded only for canonical reference-encoded tokens.",
+         "spnego.SPNEGOKRB5Authenticate is driven through httptest with ~56 000 Authorization header values per quick run (absent/other schemes/garbage, every framing of valid and defective reference-minted AP-REQs incl. AP-REP and KRB-ERROR mech tokens, empty and foreign mech lists, every prefix and per-byte substitutions of valid tokens, request sequences with and without working/failing session managers, tickets bound to addresses against a configured client address, sessions made with and without a PAC whose cookie-only follow-up must carry the accepted identity, a session store that returns a record together with an error); the five token-verification APIs receive the same tokens directly. Soundness: the inner handler ran or an API reported success only if some AP-REQ found at any offset of the decoded header is accepted by the reference acceptor, and the context identity equals the ticket's sealed identity; refusals must be 401 + WWW-Authenticate: Negotiate (5xx only when the harness session store failed). Completeness is demanded only for canonical reference-encoded tokens.",
          "Trusts ref/accept, ref/kmsg framing encoders and the lenient extractor (tries every 0x6e offset, BER tolerated, so it never demands more than the statement). Tokens accepted only under a framing-agnostic reading of mutated wrapper lengths are counted, not judged.",
          "5.C03"),
  "C04": ("runtime monitor (panic guard, allocation meter on runtime/metrics confirmed by ReadMemStats and attributed by a profiled re-run, hang watchdog, RLIMIT_AS in a sacrificial executor process) around 112 externally reachable entry points fed with deterministic mutations of valid inputs",
@@ -72,17 +72,17 @@ CHECKS = {
          "5.C04"),
  "C09": ("runtime monitor with fault-injecting simulated KDC under a virtual clock: one named perturbation per reply, tagged from RFC 4120 3.1.5/3.3.4",
          "exploration",
-         "A gokrb5 client (password and keytab credentials x six etypes x three pre-authentication policies x noaddresses) performs AS and TGS exchanges over loopback against a simulated KDC built only on the reference encoder/crypto; the KDC applies one perturbation to the otherwise correct reply (other key, other key usage, ciphertext bit flips incl. one per ciphertext byte, truncations, nonce, cname, crealm, sname, srealm, ticket realm, addresses, authtime/starttime at and beyond the skew, wrong message type, stale reply) or answers each KRB-ERROR code 1..93 and an unknown one. Rejecting perturbations must fail the exchange, neutral ones and the unperturbed reply must succeed, KRB-ERROR codes must be recoverable from the returned error.",
+         "A gokrb5 client (password and two-component keytab principals x six etypes x three pre-authentication policies x noaddresses) performs AS and TGS exchanges - also through a KDC referral to a second realm, with the perturbation on the referral reply or on the final reply - over loopback against a simulated KDC built only on the reference encoder/crypto; the KDC applies one perturbation to the otherwise correct reply (other key, other key usage, ciphertext bit flips incl. one per ciphertext byte, truncations, nonce, cname and sname changed or cut into components differently, crealm, srealm, ticket realm, address lists replaced / omitted / shortened / extended, authtime/starttime at and beyond the skew, wrong message type, stale reply) or answers each KRB-ERROR code 1..93 and an unknown one - to the first request, to the pre-authenticated second request, and over the TCP fallback after UDP refused or said response-too-big. Rejecting perturbations must fail the exchange, neutral ones and the unperturbed reply must succeed, KRB-ERROR codes must be recoverable from the returned error, which must not be classified as a networking failure.",
          "Trusts simkdc (ref/kmsg, ref/kcrypto). Observe-only: outer ticket realm/sname of AS replies, sname inside TGS replies, unrequested caddr in AS replies, KRB-ERROR 68. Usage perturbations 3<->8 skipped for rc4-hmac (RFC 4757 aliases).",
          "5.C09"),
  "C10": ("runtime monitor over client histories under a virtual clock: strictly decoded KDC request log vs configuration; returned (ticket,key) vs KDC issue log; round-trip bounds",
          "exploration",
-         "Seeded histories of {Login, AffirmLogin, GetServiceTicket, GetCachedTicket, advance, Destroy+re-create} run against a simulated multi-realm KDC (single realm, mapped cross-realm, referral chains 0..8, referral loop) with clock advances drawn from the interesting instants of the tickets issued so far. Every request the KDC receives is decoded with the strict reference decoder and compared with what the configuration dictates (etypes, kdc-options, till, rtime, addresses, names, PA-ENC-TIMESTAMP under usage 1 with the current virtual time, PA-TGS-REQ ticket/authenticator usage 7/body checksum usage 6); every returned (ticket, key) must be a pair of the KDC issue log for that SPN and valid at the virtual time of the return; calls must succeed within 8 (24 on referral topologies) KDC round trips.",
+         "Seeded histories (credential kinds: password, keytab, and a password client that assumes pre-authentication against a KDC entry with a non-default salt) of {Login, AffirmLogin, GetServiceTicket, GetCachedTicket, advance, Destroy+re-create} run against a simulated multi-realm KDC (single realm, mapped cross-realm, referral chains 0..8, referral loop) with clock advances drawn from the interesting instants of the tickets issued so far. Every request the KDC receives is decoded with the strict reference decoder and compared with what the configuration dictates (etypes, kdc-options, till, rtime, addresses, names, PA-ENC-TIMESTAMP under usage 1 with the current virtual time, PA-TGS-REQ ticket/authenticator usage 7/body checksum usage 6); every returned (ticket, key) must be a pair of the KDC issue log for that SPN and valid at the virtual time of the return; calls must succeed within 8 (24 on referral topologies) KDC round trips.",
          "Trusts simkdc. A live client is re-created before the clock would enter the regime where its background TGT refresh degenerates to zero-length timers (renew-till of the home TGT; 5/6 lifetime of cross-realm TGTs): a virtual clock cannot advance through that burst. Failures after a KDC referral loop back into the home realm are observed, not judged.",
          "5.C10"),
  "C13": ("differential runtime monitor: gokrb5 Marshal/Unmarshal vs independent strict DER decoder/encoder for every message type, incl. after decrypt/verify operations",
          "exploration",
-         "For 17 message and structure types, generated values (optionals present/absent, boundary integers, 0..4 name components, strings forcing 1-4 length octets, every flag bit) go gokrb5 Marshal -> gokrb5 Unmarshal (value equality) and gokrb5 Marshal -> reference strict decoder (tags, string types, optional presence, flag numbering, minimal lengths, no trailing bytes, same field values); reference-encoded bytes go gokrb5 Unmarshal -> Marshal (byte equality when no optional carries a zero value); the same after Ticket.DecryptEncPart, APReq.Verify, ASRep/TGSRep/KRBPriv decryption; length-octet helpers for all lengths (0..2^16 + 2^k+-1 quick, 0..2^24 thorough).",
+         "For 17 message and structure types, generated values (optionals present/absent, boundary integers, 0..4 name components, strings forcing 1-4 length octets, every flag bit) go gokrb5 Marshal -> gokrb5 Unmarshal (value equality) and gokrb5 Marshal -> reference strict decoder (tags, string types, optional presence, flag numbering, minimal lengths, no trailing bytes, same field values); reference-encoded bytes go gokrb5 Unmarshal -> Marshal (byte equality when no optional carries a zero value); the same after Ticket.DecryptEncPart, APReq.Verify, ASRep/TGSRep/KRBPriv decryption; messages stamped by the library's own constructors (NewKRBError, NewAuthenticator, GetPAEncTSEncAsnMarshalled, NewASReqForTGT) in a process whose local zone is not UTC must read as KerberosTime of the current instant; length-octet helpers for all lengths (0..2^16 + 2^k+-1 quick, 0..2^24 thorough).",
          "Trusts ref/kmsg + ref/der (self-tested by decoding and byte-identically re-encoding 35 MIT vectors). Observe-only: optionals present with zero value, NegTokenResp without negState, EncTGSRepPart tag 26 re-encoding, decode-only/encode-only types.",
          "5.C13"),
  "C11": ("Go race detector over shared-client workloads (virtual-clock bubbles and real-time trials) + KDC issue-log pairing + configuration snapshot + deadlock watchdog with goroutine dumps",
@@ -92,17 +92,17 @@ CHECKS = {
          "5.C11"),
  "C12": ("fault enumeration at simulated KDC endpoints: allowed-outcome set computed from the fault assignment",
          "fault_enumeration",
-         "Every configured KDC is a loopback endpoint whose UDP side behaves as one of {answers, refuses, silent, KRB-ERROR, response-too-big, empty datagram} and whose TCP side as one of {answers, refuses, silent, KRB-ERROR, closes at once / inside the length prefix / inside the body}, crossed with udp_preference_limit in {1, smaller than the request, larger}: exhaustive for 1 KDC, exhaustive (thorough) or restricted to <= 1 silent side (quick) for 2 KDCs, seeded samples for 3 KDCs, plus a TGS sample. The result of Login/GetServiceTicket must lie in the set of outcomes the assignment permits (order-independent because the library randomises the KDC order) and the attempts seen by the endpoints must stay within 2 x transports x KDCs.",
-         "Trusts simkdc endpoints (private port pool so that a refusing side cannot be re-bound). Garbage (non-Kerberos) replies are not part of the statement and not enumerated.",
+         "Every configured KDC is a loopback endpoint whose UDP side behaves as one of {answers, refuses, silent, KRB-ERROR, response-too-big, empty datagram} and whose TCP side as one of {answers, refuses, silent, KRB-ERROR, closes at once / inside the length prefix / inside the body}, crossed with udp_preference_limit in {1, smaller than the request, larger}: exhaustive for 1 KDC, exhaustive (thorough) or restricted to <= 1 silent side (quick) for 2 KDCs, seeded samples for 3 KDCs, plus a TGS sample and logins with a wrong password against a principal that must pre-authenticate (two round trips: the second answer, KRB-ERROR 24, must come back as the KDC's error). The result of Login/GetServiceTicket must lie in the set of outcomes the assignment permits (order-independent because the library randomises the KDC order) and the attempts seen by the endpoints must stay within 2 x transports x KDCs. A surfaced KRB-ERROR is the KRBError itself or a client error of root cause KDC_Error; plain failure is not permitted when nothing answers correctly but some endpoint sends a KRB-ERROR.",
+         "Trusts simkdc endpoints (private port pool so that a refusing side cannot be re-bound). Garbage (non-Kerberos) replies are not part of the statement and not enumerated. Verdicts of the kind 'failed although an endpoint works' depend on the library's fixed 5 s window and are confirmed by two re-runs in isolation before they count.",
          "5.C12"),
  "C18": ("runtime monitor with scripted HTTP servers: recorded request histories judged by request bound, independent acceptor on every token, body hash",
          "exploration",
-         "Scripted servers on 127.0.0.1 and localhost answer the k-th request of one spnego.Client.Do call with the k-th symbol of a script: every sequence of length <= 3 (quick) / 5 (thorough) over {200, 401 bare Negotiate, 401 Negotiate+reject token, 401 other scheme, 302 same host, 302 other host, 500} followed by each constant tail (exhaustive), crossed with seeded method, body size up to 1 MiB (known and unknown length), explicit vs URL-derived SPN and the six etypes of the service ticket. Every request is recorded; at most 64 requests per call; a challenge to an unauthenticated request must be followed by a retry whose token the reference acceptor (holding the service key of the intended SPN) accepts with an RFC 4121 4.1.1 checksum; bodies of authenticated requests must equal the original (length and SHA-256); Do must return the last response or an error.",
-         "Acceptor = ref/accept (fresh replay state per token); the JDK GSS acceptor of the design is not wired in. Servers answer 401 to unauthenticated requests before reading the body.",
+         "Scripted servers on 127.0.0.1 and localhost answer the k-th request of one spnego.Client.Do call with the k-th symbol of a script: every sequence of length <= 3 (quick) / 5 (thorough) over {200, 401 bare Negotiate, 401 Negotiate+reject token, 401 other scheme, 302 same host, 302 other host, 500} followed by each constant tail (exhaustive), crossed with seeded method, body size up to 1 MiB (known and unknown length), explicit vs URL-derived SPN, an Authorization header of another scheme already set by the caller (2 in 5) and the six etypes of the service ticket. Every request is recorded; at most 64 requests per call; a challenge to an unauthenticated request must be followed by a retry whose token the reference acceptor (holding the service key of the intended SPN) accepts with an RFC 4121 4.1.1 checksum; bodies of authenticated requests must equal the original (length and SHA-256); Do must return the last response or an error.",
+         "Acceptor = ref/accept with one replay state per Do call (the tokens of one call must be distinct authenticators); the JDK GSS acceptor of the design is not wired in. Servers answer 401 to unauthenticated requests before reading the body.",
          "5.C18"),
  "C20": ("runtime monitor: planted high-entropy secrets + multi-encoding scanner over every observed output surface",
          "exploration",
-         "Markers are planted as client password, client/service keytab keys, krbtgt keys (KDC side only), session keys (from the simulated KDC issue log), authenticator subkeys and a new password sent through a simulated kpasswd service; after each scenario (logins per credential kind x etype x pre-auth policy, wrong secret, forced KDC errors, unreachable KDC, password change ok/error, service-side verification of valid and defective AP-REQs incl. the HTTP handler, truncation of secret-bearing keytab/ccache files at every offset plus seeded corruptions, Keytab.AddEntry) every observed output - Client.Print/Diagnostics, JSON/gob dumps, logger output, Error()/%+v/%#v of every returned error, Marshal() of Ticket/AP-REQ/AS-REP/KRB-PRIV after decryption, HTTP responses - is scanned for every secret in raw, hex, base64/base64url (3 alignments) and UTF-16LE form.",
+         "Markers are planted as client password, client/service keytab keys, krbtgt keys (KDC side only), session keys (from the simulated KDC issue log), authenticator subkeys and a new password sent through a simulated kpasswd service; after each scenario (logins per credential kind x etype x pre-auth policy, wrong secret, forced KDC errors, unreachable KDC, password change ok/error, misconfigured clients (realm block without KDC, realm not configured), service-side verification of valid and defective AP-REQs incl. key look-up failures and the HTTP handler, the Kerberos Basic authenticator with the password in the clear (three user-name forms x right/wrong password/misconfiguration), truncation of secret-bearing keytab/ccache files at every offset plus seeded corruptions, Keytab.AddEntry) every observed output - Client.Print/Diagnostics, JSON/gob dumps, logger output, Error()/%+v/%#v of every returned error, Marshal() of Ticket/AP-REQ/AS-REP/KRB-PRIV and of ticket sequences / TGS-REQ additional tickets after decryption, HTTP responses - is scanned for every secret in raw, hex, base64/base64url (3 alignments) and UTF-16LE form.",
          "Scanner self-test plants each encoding at 7 alignments at every run. Keytab.String()/entry.String() print keys by design and are not scanned.",
          "5.C20"),
 }
